@@ -306,12 +306,15 @@ func (c *timerCtx) finish(err error) {
 // fires only when the explorer schedules the "deadline" timer thread.
 func WithTimeout(parent context.Context, d time.Duration) (context.Context, context.CancelFunc) {
 	if s, t := current(); t != nil {
-		c := &timerCtx{Context: parent, done: make(chan struct{}), deadline: time.Now().Add(d), s: s}
+		c := &timerCtx{Context: parent, done: make(chan struct{}), deadline: Now().Add(d), s: s}
+		// the "deadline" thread is the passage of time: when the explorer lets it run, the (virtual) clock
+		// moves past the deadline and, unless the context was cancelled before, the timeout is delivered.
+		// A cancel does NOT remove it: time can also pass after a cancel (code that compares the clock with
+		// the deadline after being woken by a cancel must cope with that).
+		// a newer deadline lies later than every cancelled one: its thread also stands for their passage of time
+		s.dropTicks()
 		c.th = s.spawn(t, func() {
-			// make sure the real clock is past the deadline when the timeout is observed
-			if w := time.Until(c.deadline); w > 0 {
-				time.Sleep(w + time.Microsecond)
-			}
+			s.advanceClockPast(c.deadline)
 			if s2, t2 := current(); t2 != nil {
 				s2.hbRelease(t2, chanKey[struct{}](c.done))
 			}
@@ -322,8 +325,16 @@ func WithTimeout(parent context.Context, d time.Duration) (context.Context, cont
 				s2.hbRelease(t2, chanKey[struct{}](c.done))
 			}
 			c.finish(context.Canceled)
-			s.cancelTimer(c.th)
+			s.addTick(c.th) // from now on the thread only stands for "time passes"
 		}
 	}
 	return context.WithTimeout(parent, d)
+}
+
+// Now replaces time.Now in instrumented packages: real time plus the virtual offset of the active controlled run.
+func Now() time.Time {
+	if s := active.Load(); s != nil {
+		return time.Now().Add(time.Duration(s.clockOffset.Load()))
+	}
+	return time.Now()
 }
